@@ -11,7 +11,7 @@ Case lines (shared with harness/c11):
 op syntax (comma separated):
   shb,o<t>,<n> | q,o<t> | dest,o<t> | clone,o<new>,<kind>,<n> | err | flag | hbs | take,o<item>
   cerr (error inside catch) | reload,o<t>,<n> (reload_object; create() does set_heart_beat(n)) | living (enable_commands)
-  | burn (use up evaluation cost) | rp (replace_program by the inherited program without heart_beat)
+  | burn (use up evaluation cost) | rp (replace_program by the inherited program without heart_beat) | mv,o<dest> (move_object into dest)
   tflags <n>                                MAIN_OPTION (timer_flags) = n
 o0 = blueprint /c11/obj (has heart_beat), o1 = blueprint /c11/nohb (no heart_beat function); both always loaded.
 -/
@@ -41,6 +41,7 @@ def parseOp (s : String) : Option Op :=
   | ["reload", t, n] => do some (.reload (← parseOid t) (← n.toInt?))
   | ["living"] => some .living
   | ["burn"] => some .burn
+  | ["mv", x] => do some (.mv (← parseOid x))
   | ["rp"] => some .rp
   | _ => none
 
@@ -84,6 +85,12 @@ def render : Ev → String
   | .rp o => s!"r rp {oid o}"
   | .rpNone o => s!"r rp {oid o} !none"
   | .rpDone o => s!"rpdone {oid o}"
+  | .errR => "err *Only this_object() can be destructed from move_or_destruct."
+  | .moved i d => s!"r mv {oid i} {oid d}"
+  | .movedNone i d => s!"r mv {oid i} {oid d} !none"
+  | .hookMoved i => s!"hookend {oid i} !moved"
+  | .passLimit => "passlimit"
+  | .cgAfter v => s!"cg {match v with | some p => oid p | none => "-"}"
   | .junk s => s
 
 def parseOids (s : String) : Option (List Nat) :=
@@ -138,6 +145,12 @@ def parseEv (line : String) : Ev :=
     | ["r", "rp", o] => do some (.rp (← parseOid o))
     | ["r", "rp", o, "!none"] => do some (.rpNone (← parseOid o))
     | ["rpdone", o] => do some (.rpDone (← parseOid o))
+    | ["err", "*Only", "this_object()", "can", "be", "destructed", "from", "move_or_destruct."] => some .errR
+    | ["r", "mv", i, d] => do some (.moved (← parseOid i) (← parseOid d))
+    | ["r", "mv", i, d, "!none"] => do some (.movedNone (← parseOid i) (← parseOid d))
+    | ["hookend", i, "!moved"] => do some (.hookMoved (← parseOid i))
+    | ["passlimit"] => some .passLimit
+    | ["cg", v] => if v == "-" then some (.cgAfter none) else (parseOid v).map (fun p => .cgAfter (some p))
     | _ => none
   match r with
   | some e => e
